@@ -50,15 +50,20 @@ impl Toks {
     }
 }
 
-fn items_of<'a, T: wasmparser::FromReader<'a>>(rd: wasmparser::SectionLimited<'a, T>, all: &[u8], base: usize, class: u8, toks: &mut Toks) -> Result<Vec<u64>, String> {
+/// tokens of the items of one section: hash-consed raw bytes of each item.  `canon`: for imports and exports the
+/// token is taken from the parsed item instead (name, kind, index, type reference), because the binary format has
+/// two spellings of an extern name (prefix byte 0x00 and the legacy 0x01) that denote the same import / export.
+fn items_of<'a, T: wasmparser::FromReader<'a> + std::fmt::Debug>(rd: wasmparser::SectionLimited<'a, T>, all: &[u8], base: usize, class: u8, canon: bool, toks: &mut Toks) -> Result<Vec<u64>, String> {
     let end = rd.range().end;
     let mut offs = vec![];
+    let mut dbg = vec![];
     for it in rd.into_iter_with_offsets() {
-        let (o, _) = it.map_err(|e| e.to_string())?;
+        let (o, x) = it.map_err(|e| e.to_string())?;
         offs.push(o);
+        if canon { dbg.push(format!("{:?}", x)); }
     }
     offs.push(end);
-    Ok((0..offs.len() - 1).map(|i| toks.get(class, &all[offs[i] - base..offs[i + 1] - base])).collect())
+    Ok((0..offs.len() - 1).map(|i| if canon { toks.get(class, dbg[i].as_bytes()) } else { toks.get(class, &all[offs[i] - base..offs[i + 1] - base]) }).collect())
 }
 
 fn module_token(bytes: &[u8], toks: &mut Toks) -> u64 {
@@ -119,14 +124,14 @@ fn abstract_payload(p: Payload, all: &[u8], base: usize, toks: &mut Toks) -> Res
     Ok(match p {
         Payload::Version { .. } => Abs::Version,
         Payload::End(_) => Abs::End,
-        Payload::ComponentAliasSection(r) => Abs::Sec(IK_ALIAS, items_of(r, all, base, 10, toks)?),
-        Payload::CoreTypeSection(r) => Abs::Sec(IK_CORETYPE, items_of(r, all, base, 11, toks)?),
-        Payload::ComponentTypeSection(r) => Abs::Sec(IK_COMPTYPE, items_of(r, all, base, 12, toks)?),
-        Payload::ComponentImportSection(r) => Abs::Sec(IK_IMPORT, items_of(r, all, base, 13, toks)?),
-        Payload::ComponentExportSection(r) => Abs::Sec(IK_EXPORT, items_of(r, all, base, 14, toks)?),
-        Payload::InstanceSection(r) => Abs::Sec(IK_COREINST, items_of(r, all, base, 15, toks)?),
-        Payload::ComponentInstanceSection(r) => Abs::Sec(IK_COMPINST, items_of(r, all, base, 16, toks)?),
-        Payload::ComponentCanonicalSection(r) => Abs::Sec(IK_CANON, items_of(r, all, base, 17, toks)?),
+        Payload::ComponentAliasSection(r) => Abs::Sec(IK_ALIAS, items_of(r, all, base, 10, false, toks)?),
+        Payload::CoreTypeSection(r) => Abs::Sec(IK_CORETYPE, items_of(r, all, base, 11, false, toks)?),
+        Payload::ComponentTypeSection(r) => Abs::Sec(IK_COMPTYPE, items_of(r, all, base, 12, false, toks)?),
+        Payload::ComponentImportSection(r) => Abs::Sec(IK_IMPORT, items_of(r, all, base, 13, true, toks)?),
+        Payload::ComponentExportSection(r) => Abs::Sec(IK_EXPORT, items_of(r, all, base, 14, true, toks)?),
+        Payload::InstanceSection(r) => Abs::Sec(IK_COREINST, items_of(r, all, base, 15, false, toks)?),
+        Payload::ComponentInstanceSection(r) => Abs::Sec(IK_COMPINST, items_of(r, all, base, 16, false, toks)?),
+        Payload::ComponentCanonicalSection(r) => Abs::Sec(IK_CANON, items_of(r, all, base, 17, false, toks)?),
         Payload::ModuleSection { unchecked_range, .. } => Abs::Module(unchecked_range),
         Payload::ComponentSection { unchecked_range, .. } => Abs::Component(unchecked_range),
         Payload::ComponentStartSection { range, .. } => Abs::Start(toks.get(18, &all[range.start - base..range.end - base])),
